@@ -264,6 +264,10 @@ impl Builder<AllTerms> {
         parent_id: I,
         child_id: J,
     ) -> HpoResult<()> {
+        // check the child first, so that a failing call does not modify the parent
+        if self.hpo_terms.get(child_id.into()).is_none() {
+            return Err(HpoError::DoesNotExist);
+        }
         let parent = self
             .hpo_terms
             .get_mut(parent_id.into())
@@ -466,6 +470,10 @@ impl Builder<ConnectedTerms> {
         gene_name: &str,
         term_id: HpoTermId,
     ) -> HpoResult<()> {
+        // a failing call must not add the annotation or link it to a missing term
+        if self.hpo_terms.get(term_id).is_none() {
+            return Err(HpoError::DoesNotExist);
+        }
         self.add_gene(gene_name, gene_id);
         let gene = self
             .genes
@@ -523,6 +531,10 @@ impl Builder<ConnectedTerms> {
         omim_name: &str,
         term_id: HpoTermId,
     ) -> HpoResult<()> {
+        // a failing call must not add the annotation or link it to a missing term
+        if self.hpo_terms.get(term_id).is_none() {
+            return Err(HpoError::DoesNotExist);
+        }
         self.add_omim_disease(omim_name, omim_id);
         let gene = self
             .omim_diseases
@@ -581,6 +593,10 @@ impl Builder<ConnectedTerms> {
         orpha_name: &str,
         term_id: HpoTermId,
     ) -> HpoResult<()> {
+        // a failing call must not add the annotation or link it to a missing term
+        if self.hpo_terms.get(term_id).is_none() {
+            return Err(HpoError::DoesNotExist);
+        }
         self.add_orpha_disease(orpha_name, orpha_id);
         let gene = self
             .orpha_diseases
